@@ -11,7 +11,8 @@
   `ι` = entity identifiers, `κ` = keys.  A certificate is identified with the public key it carries;
   signatures are ideal: a signature made with key `k` verifies under key `k'` iff `k' = k`
   (`signer = none`: a signature value that verifies under no key).
-  Python raising `KeyError` is the explicit value `none` of the lookup functions.
+  Python raising `KeyError` is the explicit value `none` of the lookup function `mdCerts`.
+  (Code as repaired by fix 57adca09: a key descriptor without certificate contributes none.)
 -/
 namespace Keys
 
@@ -24,12 +25,12 @@ inductive RoleKind where
   | spsso | idpsso | authnAuthority | attributeAuthority | pdp
 deriving DecidableEq, Repr
 
-/-- `md:KeyDescriptor`: `use` attribute (absent = `none`) and the certificates of its `ds:X509Data`
-    children in document order; `certs = none`: the `ds:KeyInfo` has no `X509Data` at all (the
-    dictionary has no `"x509_data"` entry and `key_info["x509_data"]` raises `KeyError`). -/
+/-- `md:KeyDescriptor`: `use` attribute (absent = `none`) and its `ds:X509Data` children in document
+    order, each with the certificate it carries or `none` (an `X509Data` without `X509Certificate`);
+    `x509 = []`: the `ds:KeyInfo` has no `X509Data` at all (e.g. only a `KeyName`). -/
 structure KeyDescr (κ : Type) where
   use : Option Use
-  certs : Option (List κ)
+  x509 : List (Option κ)
 deriving Repr
 
 structure RoleDescr (κ : Type) where
@@ -63,44 +64,39 @@ deriving Repr
 
 variable {ι κ : Type} [DecidableEq κ]
 
-/-- Concatenation of lookups each of which may raise: raises as soon as one does. -/
-def seqAppend : List (Option (List κ)) → Option (List κ)
-  | [] => some []
-  | none :: _ => none
-  | some l :: rest =>
-    match seqAppend rest with
-    | some r => some (l ++ r)
-    | none => none
-
 /-- `if "use" not in key or key_use == use` -/
 def applicable (use : Use) (kd : KeyDescr κ) : Bool :=
   match kd.use with
   | none => true
   | some u => decide (u = use)
 
+/-- `for dat in key_info.get("x509_data", []): if "x509_certificate" not in dat: continue; …`:
+    a key descriptor without certificate contributes none. -/
+def kdCerts (kd : KeyDescr κ) : List κ :=
+  kd.x509.filterMap id
+
 /-- `extract_certs(srvs)` over the key descriptors of the descriptors `srvs`, in order.
     (The code's `if cert not in res` compares a string with tuples and never filters: duplicates stay.) -/
-def extractCerts (use : Use) (kds : List (KeyDescr κ)) : Option (List κ) :=
-  seqAppend ((kds.filter (applicable use)).map (·.certs))
+def extractCerts (use : Use) (kds : List (KeyDescr κ)) : List κ :=
+  (kds.filter (applicable use)).flatMap kdCerts
 
 /-- `extract_certs(ent[f"{descr}_descriptor"])` for one role kind; an entity without such a
     descriptor contributes nothing (`except KeyError: continue`). -/
-def roleCerts (use : Use) (ent : Entity κ) (k : RoleKind) : Option (List κ) :=
+def roleCerts (use : Use) (ent : Entity κ) (k : RoleKind) : List κ :=
   extractCerts use ((ent.roles.filter (fun r => decide (r.kind = k))).flatMap (·.keys))
 
 /-- The `descriptor == "any"` loop; `order` is the code's list of role kinds. -/
-def certsAny (order : List RoleKind) (use : Use) (ent : Entity κ) : Option (List κ) :=
-  seqAppend (order.map (roleCerts use ent))
+def certsAny (order : List RoleKind) (use : Use) (ent : Entity κ) : List κ :=
+  order.flatMap (roleCerts use ent)
 
-/-- `metadata.certs(issuer, "any", use)`; `none` = `KeyError` (unknown entity, no issuer, or a key
-    descriptor without `X509Data`). -/
+/-- `metadata.certs(issuer, "any", use)`; `none` = `KeyError` (unknown entity, no issuer). -/
 def mdCerts (order : List RoleKind) (md : Metadata ι κ) (issuer : Option ι) (use : Use) : Option (List κ) :=
   match issuer with
   | none => none
   | some i =>
     match md i with
     | none => none
-    | some ent => certsAny order use ent
+    | some ent => some (certsAny order use ent)
 
 /-- Key of the first embedded `X509Certificate`, else of the `RSAKeyValue` (stand-in: `embedded_key`). -/
 def embeddedKey (ki : KeyInfo κ) : Option κ :=
